@@ -184,7 +184,13 @@ def check(case):
     if case.get("fitted_before"):
         # the same instance was fitted before on a frame holding MORE categories (last month's data): what it learnt there is gone
         extra = case["fitted_before"]
-        sup = {c: list(v) + ([extra[i % len(extra)] for i in range(2)] if c in cat_cols else [v[0], v[-1]]) for c, v in case["train"].items()}
+        def _more(c, v):
+            if c not in cat_cols:
+                return [v[0], v[-1]]
+            if any(isinstance(u, (int, float)) and not isinstance(u, bool) and not _is_missing(u) for u in v):
+                return [555, -77]                     # a column of numeric categories gets numeric extras (a fit sorts its categories)
+            return [extra[i % len(extra)] for i in range(2)]
+        sup = {c: list(v) + _more(c, v) for c, v in case["train"].items()}
         n_sup = len(case["train_index"]) + 2
         tr.fit(_frame(sup, cols, list(range(n_sup)), cat_cols, case["dtype"]))
     r = tr.fit(train)
@@ -261,6 +267,9 @@ def _cases(draw, tier="quick"):
     train, test = {}, {}
     for c in cat_cols:
         sub = draw(st.lists(st.sampled_from(ALPHA), min_size=1, max_size=4, unique=True))
+        if dtype == "object" and draw(st.integers(0, 4)) == 0:
+            # categories that are NUMBERS held in an object column (store ids, codes): their order is the order of numbers (2 < 10, -3 < 2)
+            sub = draw(st.lists(st.sampled_from([2, 10, -3, 7, 100, 33, -20]), min_size=2, max_size=4, unique=True))
         cell = st.one_of(st.sampled_from(sub), st.sampled_from(sub), st.sampled_from(sub), missing)
         train[c] = draw(st.lists(cell, min_size=ntr, max_size=ntr))
         if all(_is_missing(v) for v in train[c]):
